@@ -382,6 +382,9 @@ def _run_pretty(pretty_fn, value, ctx, trailing_comment=None):
             else:
                 _warn_about_bad_printer(pretty_fn, value, exc=e)
                 doc = repr(value)
+        except Exception as e:
+            _warn_about_bad_printer(pretty_fn, value, exc=e)
+            doc = repr(value)
     else:
         try:
             doc = pretty_fn(value, ctx)
